@@ -413,6 +413,35 @@ func c03(r *Report, s *Sem) {
 			}
 		})
 		r.Check(R5, "func "+fnName(gateFn)+" / established envelope announces that node", p.pos(gateFn.Pos()), okTo && nTo == 1, fmt.Sprintf("%d store(s) to Session.To", nTo))
+		// the node handed in is used as it is: a by-value parameter that is modified (qualified, normalised) between the two
+		// uses makes the channel remember another address than the one it announces
+		modified := 0
+		if nodeParam != nil {
+			for _, ref := range *nodeParam.Referrers() {
+				st, ok := ref.(*ssa.Store)
+				if !ok || st.Val != ssa.Value(nodeParam) {
+					continue
+				}
+				if cell, ok := st.Addr.(*ssa.Alloc); ok {
+					// the parameter's own cell: any further write into it (whole or a field) is a modification
+					var walk func(addr ssa.Value)
+					walk = func(addr ssa.Value) {
+						for _, r2 := range *addr.Referrers() {
+							switch x := r2.(type) {
+							case *ssa.Store:
+								if x.Addr == addr && x != st {
+									modified++
+								}
+							case *ssa.FieldAddr:
+								walk(x)
+							}
+						}
+					}
+					walk(cell)
+				}
+			}
+		}
+		r.Check(R5, "func "+fnName(gateFn)+" / the registered node is used unmodified", p.pos(gateFn.Pos()), modified == 0, fmt.Sprintf("%d write(s) into the node parameter", modified))
 		// remoteNode of server channels is stored nowhere else
 		other := 0
 		for _, st := range fieldStores(srvFns, s.remoteNodeF) {
